@@ -140,4 +140,3 @@ func raceSig(blk string) string {
 	}
 	return strings.Join(outs, "<>")
 }
-
